@@ -160,6 +160,9 @@ FIRING = [
     ("flip-close-not-reported", "jesse/models/Position.py", "                        if self.strategy:\n                            self.strategy._on_updated_position(order)\n                        # what is left", "                        # what is left", ["C06", "C03"]),
     ("oversize-exit-booked-whole", "jesse/store/state_completed_trades.py", "        if p is not None and p.qty != 0 and p.qty * qty < 0 and abs(qty) > abs(p.qty):\n            qty = abs(p.qty)\n", "", ["C06"]),
     ("normal-simulator-clock-not-advanced", BT, "        store.app.time = first_candles_set[i][0] + 60_000\n\n        # add candles", "        # add candles", ["C01", "C02"]),
+    ("flip-rest-not-held-during-close", "jesse/models/Position.py", "                            held.append(np.array([diff_qty, price]))\n", "                            pass\n", ["C03"]),
+    ("flip-new-trade-without-entry-order", "jesse/models/Position.py", "                        store.completed_trades._get_current_trade(self.exchange_name, self.symbol).orders.append(order)\n", "", ["C06"]),
+    ("reset-trade-orders-drops-live-orders", "jesse/store/state_orders.py", "        self.storage[key] = [o for o in self.storage[key] if o.is_active or o.is_queued]\n        self.active_storage[key] = [o for o in self.active_storage[key] if o.is_active or o.is_queued]\n", "        self.storage[key] = []\n        self.active_storage[key] = []\n", ["C05"]),
     ("dna-append-multiple-empty", "jesse/libs/dynamic_numpy_array/__init__.py", "        if len(items) == 0:\n            return\n", "", ["C18"]),
     ("dna-delete-raw-index", "jesse/libs/dynamic_numpy_array/__init__.py", "        if index < 0:\n            index = (self.index + 1) - abs(index)\n        if index > self.index or index < 0:\n            raise IndexError('list assignment index out of range')\n\n        self.array = np.delete", "        self.array = np.delete", ["C18"]),
 ]
